@@ -14,10 +14,19 @@ inductive Reach (g : Graph V) : Nat → Nat → Prop
   | refl (i : Nat) : Reach g i i
   | step {i : Nat} {s : SNode V} {d k : Nat} : g i = .struct s → d ∈ s.deps → Reach g d k → Reach g i k
 
-theorem Reach.le {g : Graph V} (hwf : WF g) {i k : Nat} (h : Reach g i k) : k ≤ i := by
+theorem Reach.rank_le {rank : Nat → Nat} {F : Nat} {g : Graph V} (hwf : Ranked rank F g) {i k : Nat}
+    (h : Reach g i k) : rank k ≤ rank i := by
   induction h with
   | refl => exact Nat.le_refl _
-  | step hs hd _ ih => have := hwf _ _ hs _ hd; omega
+  | step hs hd _ ih => have := hwf.2 _ _ hs _ hd; omega
+
+/-- a node is not in the cone of its own dependencies -/
+theorem Reach.not_dep {rank : Nat → Nat} {F : Nat} {g : Graph V} (hwf : Ranked rank F g) {i d : Nat} {s : SNode V}
+    (hs : g i = .struct s) (hd : d ∈ s.deps) : ¬ Reach g d i := by
+  intro h
+  have := h.rank_le hwf
+  have := hwf.2 i s hs d hd
+  omega
 
 theorem Reach.trans {g : Graph V} {i j k : Nat} (h1 : Reach g i j) (h2 : Reach g j k) : Reach g i k := by
   induction h1 with
@@ -34,7 +43,8 @@ theorem Reach.of_static {g g' : Graph V} (hs : SameStatic g' g) {i k : Nat} (h :
     exact .step ht (hdeps ▸ hd) ih
 
 /-- the executable cone of the driver's oracle is the cone of the theorems -/
-theorem inCone_iff {g : Graph V} (hwf : WF g) (f j k : Nat) (hf : j < f) : inCone f g j k = true ↔ Reach g j k := by
+theorem inCone_iff {rank : Nat → Nat} {F : Nat} {g : Graph V} (hwf : Ranked rank F g) (f j k : Nat) (hf : rank j < f) :
+    inCone f g j k = true ↔ Reach g j k := by
   induction f generalizing j with
   | zero => omega
   | succ f ih =>
@@ -48,7 +58,7 @@ theorem inCone_iff {g : Graph V} (hwf : WF g) (f j k : Nat) (hf : j < f) : inCon
           rw [hs] at h
           simp only [List.any_eq_true] at h
           obtain ⟨d, hd, hdk⟩ := h
-          have := hwf j s hs d hd
+          have := hwf.2 j s hs d hd
           exact .step hs hd ((ih d (by omega)).1 hdk)
     · intro h
       cases h with
@@ -57,7 +67,7 @@ theorem inCone_iff {g : Graph V} (hwf : WF g) (f j k : Nat) (hf : j < f) : inCon
         right
         rw [hs]
         simp only [List.any_eq_true]
-        have := hwf j s hs d hd
+        have := hwf.2 j s hs d hd
         exact ⟨d, hd, (ih d (by omega)).2 hr⟩
 
 /-- `Outdated` looks only at the cone (fuel level, no guard needed) -/
@@ -98,16 +108,18 @@ theorem evalSpec_congr_cone (f : Nat) (g g' : Graph V) (k : Nat)
       intro d hd
       exact ih d (fun j hj => h j (.step hs hd hj))
 
-theorem Outdated_congr_cone (g g' : Graph V) (k : Nat) (h : ∀ j, Reach g k j → g' j = g j) :
-    Outdated g' k = Outdated g k := outdated_congr_cone _ g g' k h
+theorem Outdated_congr_cone (F : Nat) (g g' : Graph V) (k : Nat) (h : ∀ j, Reach g k j → g' j = g j) :
+    Outdated F g' k = Outdated F g k := outdated_congr_cone _ g g' k h
 
-theorem Spec_congr_cone (g g' : Graph V) (k : Nat) (h : ∀ j, Reach g k j → g' j = g j) :
-    Spec g' k = Spec g k := evalSpec_congr_cone _ g g' k h
+theorem Spec_congr_cone (F : Nat) (g g' : Graph V) (k : Nat) (h : ∀ j, Reach g k j → g' j = g j) :
+    Spec F g' k = Spec F g k := evalSpec_congr_cone _ g g' k h
 
 /-- `evalSpec` looks only at parameters, processors and wiring -/
-theorem Spec_static {g g' : Graph V} (hwf : WF g) (hs : SameStatic g' g) (i : Nat) : Spec g' i = Spec g i := by
-  induction i using Nat.strongRecOn with
-  | _ i ih =>
+theorem Spec_static {rank : Nat → Nat} {F : Nat} {g g' : Graph V} (hwf : Ranked rank F g) (hs : SameStatic g' g) (i : Nat) :
+    Spec F g' i = Spec F g i := by
+  induction hn : rank i using Nat.strongRecOn generalizing i with
+  | _ n ih =>
+    subst hn
     rw [Spec_eq g' (hwf.of_static hs), Spec_eq g hwf]
     have h1 := hs i
     cases hg : g i with
@@ -123,12 +135,15 @@ theorem Spec_static {g g' : Graph V} (hwf : WF g) (hs : SameStatic g' g) (i : Na
       congr 1
       apply List.map_congr_left
       intro d hd
-      exact ih d (hwf i t hg d hd)
+      exact ih (rank d) (hwf.2 i t hg d hd) d rfl
 
 /-! ### staleness propagates upwards -/
 
-theorem Outdated_of_dep {g : Graph V} (hwf : WF g) {k d : Nat} {s : SNode V} (hs : g k = .struct s)
-    (hd : d ∈ s.deps) (hod : Outdated g d = true) : Outdated g k = true := by
+section
+variable {rank : Nat → Nat} {F : Nat}
+
+theorem Outdated_of_dep {g : Graph V} (hwf : Ranked rank F g) {k d : Nat} {s : SNode V} (hs : g k = .struct s)
+    (hd : d ∈ s.deps) (hod : Outdated F g d = true) : Outdated F g k = true := by
   rw [Outdated_eq g hwf, hs]
   dsimp only
   cases hr : s.remembered with
@@ -138,19 +153,20 @@ theorem Outdated_of_dep {g : Graph V} (hwf : WF g) {k d : Nat} {s : SNode V} (hs
     rw [mismatch_true_of_mem g _ _ rv d hd hod]
     simp
 
-theorem Outdated_of_reach {g : Graph V} (hwf : WF g) {k j : Nat} (h : Reach g k j)
-    (hod : Outdated g j = true) : Outdated g k = true := by
+theorem Outdated_of_reach {g : Graph V} (hwf : Ranked rank F g) {k j : Nat} (h : Reach g k j)
+    (hod : Outdated F g j = true) : Outdated F g k = true := by
   induction h with
   | refl => exact hod
   | step hs hd _ ih => exact Outdated_of_dep hwf hs hd (ih hod)
 
-theorem Outdated_param {g : Graph V} {p : Nat} {x : V} {v : Nat} (h : g p = .param x v) : Outdated g p = false := by
-  simp [Outdated, outdated, h]
+theorem Outdated_param {g : Graph V} (hwf : Ranked rank F g) {p : Nat} {x : V} {v : Nat} (h : g p = .param x v) :
+    Outdated F g p = false := by
+  rw [Outdated_eq g hwf, h]
 
 /-- a processed node: remembered versions cover all dependencies position by position -/
-theorem Outdated_false_struct {g : Graph V} (hwf : WF g) {k : Nat} {s : SNode V} (hs : g k = .struct s)
-    (h : Outdated g k = false) :
-    ∃ rv, s.remembered = some rv ∧ s.flag = false ∧ mismatch g (Outdated g) s.deps rv = false := by
+theorem Outdated_false_struct {g : Graph V} (hwf : Ranked rank F g) {k : Nat} {s : SNode V} (hs : g k = .struct s)
+    (h : Outdated F g k = false) :
+    ∃ rv, s.remembered = some rv ∧ s.flag = false ∧ mismatch g (Outdated F g) s.deps rv = false := by
   rw [Outdated_eq g hwf, hs] at h
   dsimp only at h
   cases hr : s.remembered with
@@ -161,30 +177,38 @@ theorem Outdated_false_struct {g : Graph V} (hwf : WF g) {k : Nat} {s : SNode V}
     simp only [Bool.or_eq_false_iff] at h
     exact ⟨rv, rfl, h.1, h.2⟩
 
+end
+
 /-! ### the invariant -/
 
-structure Inv (g : Graph V) : Prop where
-  wf : WF g
+structure Inv (F : Nat) (g : Graph V) : Prop where
+  /-- the guard: acyclic, fewer than `F` levels -/
+  wf : Acyclic F g
   /-- I1: a node that is not outdated holds the from-scratch value -/
-  fresh : ∀ i s, g i = .struct s → Outdated g i = false → s.cache = Spec g i
+  fresh : ∀ i s, g i = .struct s → Outdated F g i = false → s.cache = Spec F g i
   /-- I2: remembered dependency versions are as many as the dependencies and pointwise `≤` the
       current ones, unless the node is flagged -/
   rem : ∀ i s rv, g i = .struct s → s.remembered = some rv → s.flag = false →
     All2 (fun d r => r ≤ ver g d) s.deps rv
 
-theorem val_eq_spec {g : Graph V} (hinv : Inv g) {d : Nat} (h : Outdated g d = false) : val g d = Spec g d := by
+section
+variable {F : Nat}
+
+theorem val_eq_spec {g : Graph V} (hinv : Inv F g) {d : Nat} (h : Outdated F g d = false) : val g d = Spec F g d := by
+  obtain ⟨rank, hwf⟩ := hinv.wf
   cases hs : g d with
-  | param x v => rw [Spec_eq g hinv.wf, hs]; simp [val, hs]
+  | param x v => rw [Spec_eq g hwf, hs]; simp [val, hs]
   | struct s => simp only [val, hs]; exact hinv.fresh d s hs h
 
 theorem ver_set_ne (g : Graph V) {p j : Nat} (n : Node V) (h : j ≠ p) : ver (g.set p n) j = ver g j := by
   simp [ver, Graph.set_ne g n h]
 
 /-- a node whose version went up makes everything above it outdated -/
-theorem bump_up {g : Graph V} (hinv : Inv g) (p : Nat) (n' : Node V) (hwf' : WF (g.set p n'))
+theorem bump_up {g : Graph V} (hinv : Inv F g) (p : Nat) (n' : Node V) (hwf' : Acyclic F (g.set p n'))
     (hver : ver g p < ver (g.set p n') p) {k : Nat} (hk : k ≠ p) (h : Reach (g.set p n') k p) :
-    Outdated (g.set p n') k = true := by
-  suffices haux : ∀ k q, Reach (g.set p n') k q → q = p → k ≠ p → Outdated (g.set p n') k = true from
+    Outdated F (g.set p n') k = true := by
+  obtain ⟨rank', hwf'⟩ := hwf'
+  suffices haux : ∀ k q, Reach (g.set p n') k q → q = p → k ≠ p → Outdated F (g.set p n') k = true from
     haux k p h rfl hk
   intro k q h
   induction h with
@@ -209,14 +233,14 @@ theorem bump_up {g : Graph V} (hinv : Inv g) (p : Nat) (n' : Node V) (hwf' : WF 
     · exact Outdated_of_dep hwf' hs hd (ih hq hdp)
 
 /-- a change confined to node `p` that leaves everything above `p` outdated preserves the invariant -/
-theorem Inv.local {g : Graph V} (hinv : Inv g) (p : Nat) (n' : Node V)
-    (hwf' : WF (g.set p n'))
+theorem Inv.local {g : Graph V} (hinv : Inv F g) (p : Nat) (n' : Node V)
+    (hwf' : Acyclic F (g.set p n'))
     (hver : ver g p ≤ ver (g.set p n') p)
-    (hup : ∀ k, k ≠ p → Reach (g.set p n') k p → Outdated (g.set p n') k = true)
-    (hfresh : ∀ s, n' = .struct s → Outdated (g.set p n') p = false → s.cache = Spec (g.set p n') p)
+    (hup : ∀ k, k ≠ p → Reach (g.set p n') k p → Outdated F (g.set p n') k = true)
+    (hfresh : ∀ s, n' = .struct s → Outdated F (g.set p n') p = false → s.cache = Spec F (g.set p n') p)
     (hrem : ∀ s rv, n' = .struct s → s.remembered = some rv → s.flag = false →
       All2 (fun d r => r ≤ ver (g.set p n') d) s.deps rv) :
-    Inv (g.set p n') := by
+    Inv F (g.set p n') := by
   have hmono : ∀ d, ver g d ≤ ver (g.set p n') d := by
     intro d
     by_cases hd : d = p
@@ -238,8 +262,8 @@ theorem Inv.local {g : Graph V} (hinv : Inv g) (p : Nat) (n' : Node V)
         · subst hjp; exact absurd hj hnr
         · rw [Graph.set_ne g n' hjp]
       rw [Graph.set_ne g n' hk] at hs
-      rw [← Outdated_congr_cone _ g k hagree] at hod
-      rw [← Spec_congr_cone _ g k hagree]
+      rw [← Outdated_congr_cone F _ g k hagree] at hod
+      rw [← Spec_congr_cone F _ g k hagree]
       exact hinv.fresh k s hs hod
   · intro k s rv hs hr hf
     by_cases hk : k = p
@@ -249,32 +273,39 @@ theorem Inv.local {g : Graph V} (hinv : Inv g) (p : Nat) (n' : Node V)
     · rw [Graph.set_ne g n' hk] at hs
       exact (hinv.rem k s rv hs hr hf).imp (fun a b _ hab => Nat.le_trans hab (hmono a))
 
+end
+
 /-! ### states reachable by evaluation steps -/
 
-structure Evolves (g g' : Graph V) : Prop where
+structure Evolves (F : Nat) (g g' : Graph V) : Prop where
   static : SameStatic g' g
   /-- only outdated nodes are touched -/
-  keep : ∀ k, Outdated g k = false → g' k = g k
+  keep : ∀ k, Outdated F g k = false → g' k = g k
   mono : ∀ k, ver g k ≤ ver g' k
 
-theorem Evolves.refl (g : Graph V) : Evolves g g :=
+section
+variable {rank : Nat → Nat} {F : Nat}
+
+theorem Evolves.refl (g : Graph V) : Evolves F g g :=
   ⟨SameStatic.refl g, fun _ _ => rfl, fun _ => Nat.le_refl _⟩
 
 /-- a node that is not outdated stays so when only outdated nodes are touched -/
-theorem Outdated_stable {g g' : Graph V} (hwf : WF g) (hkeep : ∀ k, Outdated g k = false → g' k = g k)
-    {k : Nat} (h : Outdated g k = false) : Outdated g' k = false := by
-  rw [Outdated_congr_cone g g' k]
+theorem Outdated_stable {g g' : Graph V} (hwf : Ranked rank F g) (hkeep : ∀ k, Outdated F g k = false → g' k = g k)
+    {k : Nat} (h : Outdated F g k = false) : Outdated F g' k = false := by
+  rw [Outdated_congr_cone F g g' k]
   · exact h
   · intro j hj
     apply hkeep
-    cases hoj : Outdated g j with
+    cases hoj : Outdated F g j with
     | false => rfl
     | true => rw [Outdated_of_reach hwf hj hoj] at h; cases h
 
-theorem Evolves.trans {a b c : Graph V} (hwf : WF a) (h1 : Evolves a b) (h2 : Evolves b c) : Evolves a c := by
+theorem Evolves.trans {a b c : Graph V} (hwf : Ranked rank F a) (h1 : Evolves F a b) (h2 : Evolves F b c) : Evolves F a c := by
   refine ⟨h2.static.trans h1.static, ?_, fun k => Nat.le_trans (h1.mono k) (h2.mono k)⟩
   intro k hk
   rw [h2.keep k (Outdated_stable hwf h1.keep hk), h1.keep k hk]
+
+end
 
 /-! ### correctness of `Eval` (`Struct.Value()`) -/
 
@@ -288,60 +319,65 @@ theorem cnt_eq_zero {l : Log} {k : Nat} (h : ∀ e ∈ l, e.1 ≠ k) : cnt l k =
   intro e he
   simpa using h e he
 
-structure EvalOK (g : Graph V) (i : Nat) (r : Graph V × Log) : Prop where
-  inv : Inv r.1
-  evo : Evolves g r.1
-  fresh : Outdated r.1 i = false
-  frame : ∀ k, i < k → r.1 k = g k
-  logOut : ∀ e ∈ r.2, Outdated g e.1 = true ∧ e.1 ≤ i
+structure EvalOK (F : Nat) (g : Graph V) (i : Nat) (r : Graph V × Log) : Prop where
+  inv : Inv F r.1
+  evo : Evolves F g r.1
+  fresh : Outdated F r.1 i = false
+  /-- I3: only nodes of the cone of `i` change -/
+  frame : ∀ k, ¬ Reach g i k → r.1 k = g k
+  logOut : ∀ e ∈ r.2, Outdated F g e.1 = true
   logCone : ∀ e ∈ r.2, Reach g i e.1
   count : ∀ k, ver r.1 k = ver g k + cnt r.2 k
 
-structure PullOK (g : Graph V) (i : Nat) (ds : List Nat) (r : Graph V × List V × Log) : Prop where
-  inv : Inv r.1
-  evo : Evolves g r.1
-  fresh : ∀ d ∈ ds, Outdated r.1 d = false
-  vals : r.2.1 = ds.map (Spec g)
-  frame : ∀ k, i ≤ k → r.1 k = g k
-  logOut : ∀ e ∈ r.2.2, Outdated g e.1 = true ∧ e.1 < i
+structure PullOK (F : Nat) (g : Graph V) (ds : List Nat) (r : Graph V × List V × Log) : Prop where
+  inv : Inv F r.1
+  evo : Evolves F g r.1
+  fresh : ∀ d ∈ ds, Outdated F r.1 d = false
+  vals : r.2.1 = ds.map (Spec F g)
+  frame : ∀ k, (∀ d ∈ ds, ¬ Reach g d k) → r.1 k = g k
+  logOut : ∀ e ∈ r.2.2, Outdated F g e.1 = true
   logCone : ∀ e ∈ r.2.2, ∃ d ∈ ds, Reach g d e.1
   count : ∀ k, ver r.1 k = ver g k + cnt r.2.2 k
 
-theorem pull_ok (i : Nat) (ih : ∀ d, d < i → ∀ g : Graph V, Inv g → EvalOK g d (Eval g d))
-    (ds : List Nat) (hds : ∀ d ∈ ds, d < i) (g : Graph V) (hinv : Inv g) :
-    PullOK g i ds (pull Eval g ds) := by
+section
+variable {rank : Nat → Nat} {F : Nat}
+
+theorem pull_ok (n : Nat)
+    (ih : ∀ d, rank d < n → ∀ g : Graph V, Ranked rank F g → Inv F g → EvalOK F g d (Eval F g d))
+    (ds : List Nat) (hds : ∀ d ∈ ds, rank d < n) (g : Graph V) (hwf : Ranked rank F g) (hinv : Inv F g) :
+    PullOK F g ds (pull (Eval F) g ds) := by
   induction ds generalizing g with
   | nil =>
     exact ⟨hinv, Evolves.refl g, by simp, rfl, fun _ _ => rfl, by simp [pull], by simp [pull], by simp [pull, cnt]⟩
   | cons d ds ihds =>
-    have hd : d < i := hds d (List.mem_cons_self ..)
-    have h1 := ih d hd g hinv
-    have h2 := ihds (fun e he => hds e (List.mem_cons_of_mem _ he)) (Eval g d).1 h1.inv
+    have hd : rank d < n := hds d (List.mem_cons_self ..)
+    have h1 := ih d hd g hwf hinv
+    have hwf1 : Ranked rank F (Eval F g d).1 := hwf.of_static h1.evo.static
+    have h2 := ihds (fun e he => hds e (List.mem_cons_of_mem _ he)) (Eval F g d).1 hwf1 h1.inv
     simp only [pull]
-    refine ⟨h2.inv, Evolves.trans hinv.wf h1.evo h2.evo, ?_, ?_, ?_, ?_, ?_, ?_⟩
+    refine ⟨h2.inv, Evolves.trans hwf h1.evo h2.evo, ?_, ?_, ?_, ?_, ?_, ?_⟩
     · intro e he
       rcases List.mem_cons.1 he with rfl | he
-      · exact Outdated_stable h1.inv.wf h2.evo.keep h1.fresh
+      · exact Outdated_stable hwf1 h2.evo.keep h1.fresh
       · exact h2.fresh e he
     · dsimp only
-      rw [h2.vals, List.map_cons, val_eq_spec h1.inv h1.fresh, Spec_static hinv.wf h1.evo.static]
+      rw [h2.vals, List.map_cons, val_eq_spec h1.inv h1.fresh, Spec_static hwf h1.evo.static]
       congr 1
       apply List.map_congr_left
       intro e _
-      exact Spec_static hinv.wf h1.evo.static e
+      exact Spec_static hwf h1.evo.static e
     · intro k hk
       dsimp only
-      rw [h2.frame k hk, h1.frame k (by omega)]
+      rw [h2.frame k (fun e he hr => hk e (List.mem_cons_of_mem _ he) (hr.of_static h1.evo.static.symm)),
+        h1.frame k (hk d (List.mem_cons_self ..))]
     · intro e he
       dsimp only at he
       rcases List.mem_append.1 he with he | he
-      · have := h1.logOut e he
-        exact ⟨this.1, by omega⟩
+      · exact h1.logOut e he
       · have := h2.logOut e he
-        refine ⟨?_, this.2⟩
-        cases ho : Outdated g e.1 with
+        cases ho : Outdated F g e.1 with
         | true => rfl
-        | false => rw [Outdated_stable hinv.wf h1.evo.keep ho] at this; exact absurd this.1 (by simp)
+        | false => rw [Outdated_stable hwf h1.evo.keep ho] at this; exact absurd this (by simp)
     · intro e he
       dsimp only at he
       rcases List.mem_append.1 he with he | he
@@ -353,56 +389,61 @@ theorem pull_ok (i : Nat) (ih : ∀ d, d < i → ∀ g : Graph V, Inv g → Eval
       rw [h2.count k, h1.count k, cnt_append]
       omega
 
-theorem Eval_ok (i : Nat) : ∀ g : Graph V, Inv g → EvalOK g i (Eval g i) := by
-  induction i using Nat.strongRecOn with
-  | _ i ih =>
-    intro g hinv
-    have hwf := hinv.wf
-    have trivialCase : Outdated g i = false → EvalOK g i (g, []) := fun ho =>
+theorem Eval_ok_aux (n : Nat) : ∀ i, rank i = n → ∀ g : Graph V, Ranked rank F g → Inv F g →
+    EvalOK F g i (Eval F g i) := by
+  induction n using Nat.strongRecOn with
+  | _ n ih =>
+    intro i hi g hwf hinv
+    subst hi
+    have trivialCase : Outdated F g i = false → EvalOK F g i (g, []) := fun ho =>
       ⟨hinv, Evolves.refl g, ho, fun _ _ => rfl, by simp, by simp, by simp [cnt]⟩
     rw [Eval_eq g hwf]
     cases hs : g i with
-    | param x v => exact trivialCase (Outdated_param hs)
+    | param x v => exact trivialCase (Outdated_param hwf hs)
     | struct s =>
       dsimp only
-      cases ho : Outdated g i with
+      cases ho : Outdated F g i with
       | false => simpa using trivialCase ho
       | true =>
         simp only [if_true]
-        have hp := pull_ok i ih s.deps (hwf i s hs) g hinv
-        generalize hr : pull Eval g s.deps = r at hp
+        have hp := pull_ok (rank i) (fun d hd g' hw' hi' => ih (rank d) hd d rfl g' hw' hi') s.deps
+          (hwf.2 i s hs) g hwf hinv
+        generalize hr : pull (Eval F) g s.deps = r at hp
+        have hwf1 : Ranked rank F r.1 := hwf.of_static hp.evo.static
         -- the state after the dependencies have been pulled
-        have hg1i : r.1 i = .struct s := by rw [hp.frame i (Nat.le_refl _), hs]
+        have hg1i : r.1 i = .struct s := by
+          rw [hp.frame i (fun d hd => Reach.not_dep hwf hs hd), hs]
         have hver1 : ver r.1 i = s.version := by simp [ver, hg1i]
         have hstat : SameStatic (r.1.set i (.struct (s.executed r.1 r.2.1))) g := by
           intro j
           by_cases hj : j = i
           · subst hj; rw [Graph.set_same, hs]; simp [StaticEq, SNode.executed]
           · rw [Graph.set_ne _ _ hj]; exact hp.evo.static j
-        have hwf' : WF (r.1.set i (.struct (s.executed r.1 r.2.1))) := hwf.of_static hstat
-        have hdne : ∀ d ∈ s.deps, d ≠ i := fun d hd => by have := hwf i s hs d hd; omega
+        have hwf' : Ranked rank F (r.1.set i (.struct (s.executed r.1 r.2.1))) := hwf.of_static hstat
+        have hdne : ∀ d ∈ s.deps, d ≠ i := fun d hd h => by
+          have := hwf.2 i s hs d hd; subst h; omega
         have hverd : ∀ d ∈ s.deps, ver (r.1.set i (.struct (s.executed r.1 r.2.1))) d = ver r.1 d :=
           fun d hd => ver_set_ne _ _ (hdne d hd)
         have hvi : ver (r.1.set i (.struct (s.executed r.1 r.2.1))) i = s.version + 1 := by
           simp [ver, SNode.executed]
-        have hfresh' : Outdated (r.1.set i (.struct (s.executed r.1 r.2.1))) i = false := by
+        have hfresh' : Outdated F (r.1.set i (.struct (s.executed r.1 r.2.1))) i = false := by
           rw [Outdated_eq _ hwf', Graph.set_same]
           simp only [SNode.executed, Bool.false_or]
           change mismatch _ _ s.deps _ = false
-          rw [mismatch_congr _ r.1 _ (Outdated r.1) s.deps _ ?_]
+          rw [mismatch_congr _ r.1 _ (Outdated F r.1) s.deps _ ?_]
           · exact mismatch_map_ver r.1 _ s.deps hp.fresh
           · intro d hd
             refine ⟨hverd d hd, ?_⟩
             apply Outdated_congr_cone
             intro j hj
-            have := Reach.le hp.inv.wf hj
-            have := hwf i s hs d hd
-            exact Graph.set_ne _ _ (by omega)
-        have hinv' : Inv (r.1.set i (.struct (s.executed r.1 r.2.1))) := by
-          apply Inv.local hp.inv i _ hwf'
+            have := Reach.rank_le hwf1 hj
+            have := hwf.2 i s hs d hd
+            exact Graph.set_ne _ _ (fun h => by subst h; omega)
+        have hinv' : Inv F (r.1.set i (.struct (s.executed r.1 r.2.1))) := by
+          apply Inv.local hp.inv i _ ⟨rank, hwf'⟩
           · rw [hvi, hver1]; omega
           · intro k hk hreach
-            exact bump_up hp.inv i _ hwf' (by rw [hvi, hver1]; omega) hk hreach
+            exact bump_up hp.inv i _ ⟨rank, hwf'⟩ (by rw [hvi, hver1]; omega) hk hreach
           · intro s' hs' _
             cases hs'
             rw [Spec_static hwf hstat, Spec_eq g hwf, hs]
@@ -429,15 +470,15 @@ theorem Eval_ok (i : Nat) : ∀ g : Graph V, Inv g → EvalOK g i (Eval g i) := 
           · rw [ver_set_ne _ _ hki]; exact hp.evo.mono k
         · intro k hk
           dsimp only
-          rw [Graph.set_ne _ _ (by omega), hp.frame k (by omega)]
+          have hki : k ≠ i := fun h => hk (h ▸ .refl _)
+          rw [Graph.set_ne _ _ hki, hp.frame k (fun d hd hr => hk (.step hs hd hr))]
         · intro e he
           dsimp only at he
           rcases List.mem_append.1 he with he | he
-          · have := hp.logOut e he
-            exact ⟨this.1, by omega⟩
+          · exact hp.logOut e he
           · simp only [List.mem_singleton] at he
             subst he
-            exact ⟨ho, Nat.le_refl _⟩
+            exact ho
         · intro e he
           dsimp only at he
           rcases List.mem_append.1 he with he | he
@@ -451,7 +492,10 @@ theorem Eval_ok (i : Nat) : ∀ g : Graph V, Inv g → EvalOK g i (Eval g i) := 
           rw [cnt_append]
           by_cases hki : k = i
           · subst hki
-            rw [hvi, cnt_eq_zero (fun e he => by have := (hp.logOut e he).2; omega)]
+            rw [hvi, cnt_eq_zero (fun e he h => by
+              obtain ⟨d, hd, hr⟩ := hp.logCone e he
+              rw [h] at hr
+              exact Reach.not_dep hwf hs hd hr)]
             simp [cnt, ver, hs]
           · rw [ver_set_ne _ _ hki, hp.count k]
             have : cnt [(i, s.version + 1)] k = 0 := by
@@ -461,5 +505,11 @@ theorem Eval_ok (i : Nat) : ∀ g : Graph V, Inv g → EvalOK g i (Eval g i) := 
               subst he
               exact fun h => hki h.symm
             omega
+
+end
+
+theorem Eval_ok {F : Nat} (i : Nat) (g : Graph V) (hinv : Inv F g) : EvalOK F g i (Eval F g i) := by
+  obtain ⟨rank, hwf⟩ := hinv.wf
+  exact Eval_ok_aux (rank i) i rfl g hwf hinv
 
 end PolyVerif.Nodes
